@@ -122,8 +122,15 @@ func inRangeViaHelper(x, idx ssa.Value, at ssa.Instruction) bool {
 	if call == nil || crossWorld == nil {
 		return false
 	}
+	// slices.Index / slices.IndexFunc on the same slice: -1 or an index below its length
 	h := staticCallee(call)
-	if h == nil || !crossWorld.isPrivateHelper(h) {
+	stdIndex := false
+	if h != nil && h.Pkg != nil && h.Pkg.Pkg.Path() == "slices" && (strings.HasPrefix(h.Name(), "Index")) && len(call.Call.Args) >= 1 && desc(call.Call.Args[0]) == desc(x) {
+		stdIndex = true
+	} else if h != nil && h.Origin() != nil && h.Origin().Pkg != nil && h.Origin().Pkg.Pkg.Path() == "slices" && strings.HasPrefix(h.Origin().Name(), "Index") && len(call.Call.Args) >= 1 && desc(call.Call.Args[0]) == desc(x) {
+		stdIndex = true
+	}
+	if !stdIndex && (h == nil || !crossWorld.isPrivateHelper(h)) {
 		return false
 	}
 	excluded := func(k int64) bool {
@@ -152,6 +159,9 @@ func inRangeViaHelper(x, idx ssa.Value, at ssa.Instruction) bool {
 			}
 		}
 		return false
+	}
+	if stdIndex {
+		return excluded(-1)
 	}
 	okAll, n := true, 0
 	ri := 0
@@ -680,6 +690,16 @@ func ruleSettingsValidation(c *Ctx, rule string) {
 				}
 				if phi, isPhi := origin(nf.Cond).(*ssa.Phi); isPhi && !nf.True && phi.Comment == "supported" {
 					cases["no common revision"].found = good
+				}
+				if hc, isHC := origin(nf.Cond).(*ssa.Call); isHC && !nf.True {
+					// the selection loop in a private helper that returns its loop-carried "found" flag
+					if h := helperCallee(hc); h != nil {
+						forEachReturnValue(h, 0, func(rv ssa.Value, at ssa.Instruction) {
+							if phi, isPhi := rv.(*ssa.Phi); isPhi && inLoopPhi(phi) {
+								cases["no common revision"].found = good
+							}
+						})
+					}
 				}
 			}
 		}
